@@ -6,6 +6,7 @@ import (
 
 	"vh/core"
 	"vh/execmon"
+	"vh/scen"
 )
 
 func init() { Registry["C10"] = RunC10 }
@@ -131,6 +132,30 @@ func RunC10(e *core.Env) int {
 	if e.Tier == "thorough" {
 		n, k = 3000, 3
 	}
+	if cb, err := NewBatch(e, "badhooks", illFittingHooks()); err == nil {
+		cb.RunTool(e, true)
+		for _, c := range cb.Cases {
+			rep.Eval(1)
+			feat := map[string]string{"bad_hook": c.S.Features["bad_hook"][4:]}
+			switch {
+			case c.Run.TimedOut:
+				rep.Inconclusive("watchdog " + c.S.ID)
+			case c.Run.Crashed():
+				rep.Violate(&core.Violation{Property: "C10", Monitor: "rejection", Symptom: "ill-fitting-hook-crashes", Features: feat, Case: c.S.ID, Detail: core.Trunc(c.Run.Stderr, 600), Files: c.ReplayFiles()})
+			case c.Run.Exit == 0 && feat["bad_hook"][3:] == "variadic" && len(c.TypeErrs) == 0:
+				// a variadic tail may legitimately be seen as "no additional parameters": accepted AND compiling is fine
+				rep.Count("variadic_hook_accepted_and_compiles", 1)
+			case c.Run.Exit == 0:
+				rep.Violate(&core.Violation{Property: "C10", Monitor: "rejection", Symptom: "ill-fitting-hook-accepted", Features: feat, Case: c.S.ID,
+					Detail: fmt.Sprintf("a hook whose shape cannot fit the method was accepted; type errors of the output: %v\n%s", c.TypeErrs, core.Trunc(c.S.Files[c.S.Setup], 600)), Files: c.ReplayFiles()})
+			case strings.TrimSpace(c.Run.Stderr) == "":
+				rep.Violate(&core.Violation{Property: "C10", Monitor: "rejection", Symptom: "ill-fitting-hook-silent", Features: feat, Case: c.S.ID, Detail: "exit != 0 without diagnostic", Files: c.ReplayFiles()})
+			default:
+				rep.Count("ill_fitting_hooks_rejected", 1)
+				rep.Distinct("rejected|" + feat["bad_hook"])
+			}
+		}
+	}
 	runExecBatches(e, rep, "hooks", n, 125, execmon.Job{NRandom: k, MutateHooks: true}, func(b *Batch, eo *ExecOut) {
 		for id, infos := range eo.Infos {
 			for key, fi := range infos {
@@ -144,4 +169,53 @@ func RunC10(e *core.Env) int {
 		}
 	})
 	return rep.Finish()
+}
+
+// illFittingHooks: one scenario per hook whose shape cannot fit the method; each must be rejected at
+// generation time (exit != 0, diagnostic, no crash).
+func illFittingHooks() []*scen.Scenario {
+	var out []*scen.Scenario
+	mk := func(id, hookSrc, hookName, kind string, extras []scen.Param, hasErr bool) {
+		b := scen.NewBuilder(nil, scen.Profile{}, id, id)
+		b.Struct("", "A", "X int")
+		b.Struct("", "B", "X int")
+		b.Struct("", "C", "X int")
+		if hookSrc != "" {
+			b.Func(hookSrc, true, "")
+		}
+		m := &scen.Method{Name: "M", Src: scen.Param{Type: "*A"}, Dst: scen.Param{Type: "*B"}, Extras: extras, HasErr: hasErr,
+			Notations: []scen.Notation{scen.N(kind, hookName)}}
+		s := b.Manual(m)
+		s.InConv = false
+		s.Feature("bad_hook", id)
+		out = append(out, s)
+	}
+	i := 0
+	for _, kind := range []string{"preprocess", "postprocess"} {
+		k := kind[:3]
+		add := func(name, src, hook string, extras []scen.Param, hasErr bool) {
+			i++
+			mk(fmt.Sprintf("bh%02d%s%s", i, k, name), src, hook, kind, extras, hasErr)
+		}
+		add("noparams", "func h() {}\n", "h", nil, false)
+		add("oneparam", "func h(d *B) {}\n", "h", nil, false)
+		add("wrongdst", "func h(d *C, s *A) {}\n", "h", nil, false)
+		add("wrongsrc", "func h(d *B, s *C) {}\n", "h", nil, false)
+		add("swapped", "func h(s *A, d *B) {}\n", "h", nil, false)
+		add("extrasnone", "func h(d *B, s *A, n int, t string) {}\n", "h", nil, false)
+		add("extrasfewer", "func h(d *B, s *A, n int) {}\n", "h", []scen.Param{{Type: "int"}, {Type: "string"}}, false)
+		add("extrasmore", "func h(d *B, s *A, n int, t string, u bool) {}\n", "h", []scen.Param{{Type: "int"}, {Type: "string"}}, false)
+		add("extrastype", "func h(d *B, s *A, n string) {}\n", "h", []scen.Param{{Type: "int"}}, false)
+		add("retvalue", "func h(d *B, s *A) int { return 0 }\n", "h", nil, false)
+		add("rettwo", "func h(d *B, s *A) (error, error) { return nil, nil }\n", "h", nil, true)
+		add("errnoerr", "func h(d *B, s *A) error { return nil }\n", "h", nil, false)
+		add("notfunc", "var h = 1\n", "h", nil, false)
+		add("typename", "", "A", nil, false)
+		add("unknown", "", "nosuchhook", nil, false)
+		add("unexportedext", "", "ext.convHidden", nil, false)
+		add("unknownpkg", "", "nopkg.Hook", nil, false)
+		add("variadic", "func h(d *B, s *A, more ...int) {}\n", "h", nil, false)
+		add("scalar", "func h(d int, s string) {}\n", "h", nil, false)
+	}
+	return out
 }
